@@ -656,6 +656,29 @@ func snmpGet(r *Rng) ([]byte, []string) {
 	return append([]byte{0x30, byte(len(body))}, body...), []string{"snmp:" + hxs(typ, community)}
 }
 
+// csAll: every query type, bare (the 5-byte form: header and type only) and with argument bytes, under both headers;
+// an unknown type and datagrams shorter than the header
+func csAll(r *Rng) [][2]interface{} {
+	names := map[byte]string{0x54: "a2s_info", 0x55: "a2s_player", 0x56: "a2s_rules", 0x57: "a2s_serverquery_challenge", 0x69: "a2s_ping"}
+	var out [][2]interface{}
+	for _, hdr := range [][]byte{{0xff, 0xff, 0xff, 0xff}, {0xff, 0xff, 0xff, 0xfe}} {
+		for _, q := range []byte{0x54, 0x55, 0x56, 0x57, 0x69, 0x41} {
+			for _, args := range [][]byte{nil, {0}, r.Bytes(1 + r.Intn(30))} {
+				b := append(append(append([]byte(nil), hdr...), q), args...)
+				var ex []string
+				if n, ok := names[q]; ok {
+					ex = []string{"cs:" + hxs(n, string(b))}
+				}
+				out = append(out, [2]interface{}{b, ex})
+			}
+		}
+	}
+	for _, b := range [][]byte{{0xff}, {0xff, 0xff, 0xff, 0xff}, {0xff, 0xff, 0xff, 0xfd, 0x54}, {0, 0, 0, 0, 0x54, 1}} {
+		out = append(out, [2]interface{}{b, []string(nil)})
+	}
+	return out
+}
+
 func csQuery(r *Rng) ([]byte, []string) {
 	switch r.Intn(3) {
 	case 0:
@@ -788,6 +811,10 @@ func genC04(tier string, seed uint64) {
 		for k := 0; k < 4; k++ {
 			runSeg(prefix, g.svc, cutAt(b, []int{r.Intn(len(b) + 1), r.Intn(len(b) + 1)}), nil, false)
 		}
+	}
+	for _, c := range csAll(r) {
+		ex, _ := c[1].([]string)
+		runDgram("counterstrike", c[0].([]byte), ex, true)
 	}
 	// datagrams: each decoded and reported on its own, through the dispatcher
 	for i := 0; i < nDial*6; i++ {
